@@ -7,6 +7,8 @@ Out == CASE c.k = "round" -> [enc |-> Encode(c.enc, c.t, "strict")]
                              ELSE [payload |-> Payload(c).v,
                                    decode |-> SafeDecode("bytes", Payload(c).v, c.incoming),
                                    encode |-> SafeEncode("bytes", <<>>, Payload(c).v, c.incoming, c.enc, "strict")]
+         [] c.k = "transpol" -> [payload |-> Encode("utf-8", c.t, "strict").v,
+                                 encode |-> SafeEncode("bytes", <<>>, Encode("utf-8", c.t, "strict").v, "utf-8", c.enc, c.pol)]
          [] c.k = "decpol" -> IF Payload(c).k = "err" THEN [skip |-> TRUE]
                               ELSE [payload |-> Payload(c).v, decode |-> TextV(AsciiLenient(Payload(c).v, c.pol))]
          [] c.k = "type" -> [decode |-> SafeDecode(c.kind, <<65>>, "utf-8"),
